@@ -1,26 +1,32 @@
 # Copyright (c) Microsoft Corporation.
 # Licensed under the MIT License.
+from onnxscript.rewriter._pattern_ir import Constant
 from onnxscript.rewriter._rewrite_rule import RewriteRule, RewriteRuleSet
 
 # TODO: Support 1-D constant tensors
 # https://github.com/microsoft/onnx-rewriter/issues/186
 
 
+def _exactly(value):
+    """A constant that is exactly `value`: x * 1.000001 or x + 1e-9 are not no-ops."""
+    return Constant(value, rel_tol=0.0, abs_tol=0.0)
+
+
 # Pattern to match against
 def mul_by_1(op, x):
-    return x * 1
+    return x * _exactly(1)
 
 
 def add_0(op, x):
-    return x + 0
+    return x + _exactly(0)
 
 
 def sub_0(op, x):
-    return x - 0
+    return x - _exactly(0)
 
 
 def div_by_1(op, x):
-    return x / 1
+    return x / _exactly(1)
 
 
 def dropout_zero(op, x):
